@@ -15,6 +15,17 @@ def H(name, tier="q", bounds=""):
 
 
 PROPS = {
+    "C07": {
+        "m": "specs.c07",
+        "k": [],
+        "bounds": {"quick": "Engine M, real MIR of IncrementRounder<i128>/IsoTime::round/Instant::round_instant/NormalizedTimeDuration::round_inner: "
+                            "all values (|x| <= 2^100; all wall-clock times; all instants in range; all durations below the 2^53 s cap) x all 9 modes, "
+                            "for all 75 (unit, increment) pairs admissible for time/date-time/duration rounding and a covering subset of the "
+                            "Instant.round increments (all odd, all prime powers, maxima, 40 seed-chosen others)",
+                   "thorough": "as quick, with every increment admissible for Instant.round (every divisor of one day <= 1e9 per unit)"},
+        "outside": "the f64 instantiation of the rounder (day and calendar units of Duration.round) - floats are outside Engine M; "
+                   "halfEven parity follows Temporal's RoundTime (quantity counted within the next larger unit)",
+    },
     "C01": {
         "m": "specs.c01",
         "k": [],
